@@ -316,7 +316,9 @@ def main(prop_id, tier, replay=None, only=None):
         "violations": len(violations),
     }
     os.makedirs(os.path.join(VERIF, "evidence"), exist_ok=True)
-    with open(os.path.join(VERIF, "evidence", prop_id + ".json"), "w") as f:
+    # partial runs (--only) never overwrite the evidence of a complete run
+    ev_name = prop_id + (".partial.json" if only else ".json")
+    with open(os.path.join(VERIF, "evidence", ev_name), "w") as f:
         f.write(json.dumps(ev, indent=1, default=_np_default))
 
     for e in known:
